@@ -32,14 +32,14 @@ Inductive valid : st -> list ev -> Prop :=
     every [add] fails and the wakers retry for ever, which is "inside the call"; safety only,
     termination of the retry loop of [Submissions::wake] is not claimed.) *)
 Definition no_lost_ring_wakeup : Prop :=
-  forall m c prefill npolls wcalls es, valid (init m c prefill npolls wcalls) es ->
-    lost (fst (run step (init m c prefill npolls wcalls) es)) = false.
+  forall m c prefill nparked npolls wcalls es, valid (init m c prefill nparked npolls wcalls) es ->
+    lost (fst (run step (init m c prefill nparked npolls wcalls) es)) = false.
 
 (** The invariant behind it, as a statement of its own: whenever the poller is blocked in the
     kernel and a wake-up is owed, something is on its way. *)
 Definition wake_is_on_its_way : Prop :=
-  forall m c prefill npolls wcalls es, valid (init m c prefill npolls wcalls) es ->
-    let s := fst (run step (init m c prefill npolls wcalls) es) in
+  forall m c prefill nparked npolls wcalls es, valid (init m c prefill nparked npolls wcalls) es ->
+    let s := fst (run step (init m c prefill nparked npolls wcalls) es) in
     pp s = PInKernel -> owed s = true ->
       0 < cq s \/ sqh s < sqt s \/ exists i w, nth_error (wakers s) i = Some w /\ wp w <> WIdle.
 
@@ -55,8 +55,8 @@ Definition awoken_bit_makes_next_poll_prompt : Prop :=
     head, the other entries first; [to_submit] is computed from a head loaded earlier, so it
     covers everything pending). No assumption on the schedule. *)
 Definition pending_message_has_a_submitter : Prop :=
-  forall m c prefill npolls wcalls es,
-    let s := fst (run step (init m c prefill npolls wcalls) es) in
+  forall m c prefill nparked npolls wcalls es,
+    let s := fst (run step (init m c prefill nparked npolls wcalls) es) in
     sqh s + sqo s < sqt s ->
       md s = KernelThread
       \/ exists i w, nth_error (wakers s) i = Some w /\ (wp w = WEnterH \/ wp w = WEnterT).
@@ -65,8 +65,8 @@ Definition pending_message_has_a_submitter : Prop :=
     some waker has not finished its call (and, finishing it, will post the message). In the
     kernel-thread case a wake message is among what the kernel thread will take. *)
 Definition owed_poller_is_resumable_or_a_waker_is_running : Prop :=
-  forall m c prefill npolls wcalls es, valid (init m c prefill npolls wcalls) es ->
-    let s := fst (run step (init m c prefill npolls wcalls) es) in
+  forall m c prefill nparked npolls wcalls es, valid (init m c prefill nparked npolls wcalls) es ->
+    let s := fst (run step (init m c prefill nparked npolls wcalls) es) in
     pp s = PInKernel -> owed s = true ->
       0 < cq s \/ (md s = KernelThread /\ sqh s + sqo s < sqt s)
       \/ exists i w, nth_error (wakers s) i = Some w /\ wp w <> WIdle.
@@ -76,7 +76,7 @@ Definition owed_poller_is_resumable_or_a_waker_is_running : Prop :=
 (** [set_polling(true)] done, [set_polling(false)] not yet: bit 0 of the state is set. *)
 Definition polling_pc (p : ppc) : bool :=
   match p with
-  | PEnterH | PEnterT | PEnterFlags | PInKernel | PWbH | PWbT | PWbTry | PClearPolling
+  | PEnterH | PEnterT | PEnterFlags | PInKernel | PWbH | PWbT | PWbTry _ | PWbLock _ _ | PClearPolling
   | PClearPollingIntr => true
   | _ => false
   end.
@@ -84,7 +84,7 @@ Definition polling_pc (p : ppc) : bool :=
 Definition entering_pc (p : ppc) : bool :=
   match p with PEnterH | PEnterT | PEnterFlags | PInKernel => true | _ => false end.
 (** The previous poll has returned (or none was made), [set_polling(true)] not yet done. At the
-    remaining points (PLoadCqT2, PStoreHead, PEndWbH, PEndWbT, PEndWbTry: bit 0 already cleared,
+    remaining points (PLoadCqT2, PStoreHead, PEndWbH, PEndWbT, PEndWbTry, PEndWbLock: bit 0 already cleared,
     the poll not yet returned) a wake-up may be owed whatever the state word is. *)
 Definition before_pc (p : ppc) : bool :=
   match p with PIdle | PLoadCqT | PSetPolling => true | _ => false end.
@@ -94,7 +94,7 @@ Definition committed (w : waker) : bool :=
   match wp w with
   | WIdle => false
   | WAddH1 | WAddT1 | WAddLock | WAddSpin | WAddH2 | WAddT2 | WAddFill | WAddStore => true
-  | WEnterH | WEnterT | WEnterFlags | WWbH | WWbT | WWbTry => negb (wok w)
+  | WEnterH | WEnterT | WEnterFlags | WWbH | WWbT | WWbTry _ | WWbLock _ _ => negb (wok w)
   end.
 (** A waker that is about to [enter] (after a successful or a failed [add]) with a [to_submit]
     computed from a head it (will have) loaded after its own store. *)
@@ -212,9 +212,9 @@ Qed.
 
 (** ** One step at a time *)
 Ltac proj :=
-  cbn [md pstate cap sqh sqt sqo cq holder pp polls aw lh seen wakers wlh psub owed lost
-       set_p set_lh set_w set_wlh set_holder set_psub clear_polling consume consume_all poll_return
-       at_pc at_pc_ok call_done wp calls wok
+  cbn [md pstate cap sqh sqt sqo cq holder pp polls aw lh seen wakers wlh psub parked owed lost
+       set_p set_lh set_w set_wlh set_holder set_psub set_parked wbf_putback clear_polling consume consume_all
+       poll_return at_pc at_pc_ok call_done wp calls wok
        after_enter_ok pstuck
        polling_pc entering_pc before_pc] in *.
 Ltac inv_destruct H := destruct H as (Hle & Hps & Hb0 & Hik & How & Hbe & Hres & Hlost).
@@ -305,7 +305,11 @@ Proof.
     inv_destruct HI. rewrite Epp in *.
     destruct (sq_full s (lh s)); unfold Inv; proj;
       splits; try assumption; intros; discriminate.
-  - (* PWbTry *)
+  - (* PWbTry: takes the list (or finds it empty) *)
+    inv_destruct HI. rewrite Epp in *.
+    destruct (parked s =? 0); unfold Inv; proj;
+      splits; try assumption; intros; discriminate.
+  - (* PWbLock: puts the rest back *)
     inv_destruct HI. rewrite Epp in *. unfold Inv; proj.
     splits; try assumption; intros; discriminate.
   - (* PClearPolling: swap(NOT_POLLING) *)
@@ -331,7 +335,11 @@ Proof.
     inv_destruct HI. rewrite Epp in *.
     destruct (sq_full s (lh s)); unfold Inv; proj;
       splits; try assumption; intros; discriminate.
-  - (* PEndWbTry: the poll returns, nothing is owed any more *)
+  - (* PEndWbTry: the poll returns, nothing is owed any more (or the list is taken) *)
+    inv_destruct HI. rewrite Epp in *.
+    destruct (parked s =? 0); unfold Inv; proj;
+      splits; try assumption; intros; discriminate.
+  - (* PEndWbLock: puts the rest back; the poll returns *)
     inv_destruct HI. rewrite Epp in *. unfold Inv; proj.
     splits; try assumption; intros; discriminate.
 Qed.
@@ -352,9 +360,21 @@ Proof.
   right; right. apply (some_waker_upd committed _ i w w'); assumption.
 Qed.
 
+(** Leaving the [wake_blocked_futures] of the waker's [enter]: a waker whose add had failed goes
+    back to the add (still committed), one whose add had succeeded is done. *)
+Lemma committed_after_wbf w :
+  match wp w with WWbT | WWbTry _ | WWbLock _ _ => True | _ => False end ->
+  committed w = true -> committed (after_wbf w) = true.
+Proof.
+  unfold committed, after_wbf. destruct (wp w); try contradiction; intros _;
+    destruct (wok w); cbn [negb]; intros H; try discriminate H; reflexivity.
+Qed.
+
 (** The waker's side condition of [Inv_waker_local], by computation from its pc and [wok]. *)
 Ltac cm Epc :=
   unfold committed; rewrite ?Epc;
+  unfold after_wbf;
+  repeat match goal with |- context [if wok ?w then _ else _] => destruct (wok w) eqn:?Ewok end;
   cbn [at_pc at_pc_ok call_done wp wok negb];
   repeat match goal with |- context [match md ?s with _ => _ end] => destruct (md s) end;
   cbn [negb]; intros; try assumption; try reflexivity; try discriminate.
@@ -425,16 +445,19 @@ Proof.
     + cm Epc.
   - (* WWbH *) wl s i w (at_pc w WWbT) Epc.
   - (* WWbT: done when the add had succeeded, else back to the add *)
-    destruct (sq_full s (nth i (wlh s) 0)); [destruct (wok w) eqn:Ewok|].
-    + apply (Inv_waker_local s _ i w (call_done w)); try reflexivity; try assumption.
-      unfold committed at 1. rewrite Epc, Ewok. discriminate.
-    + wl s i w (at_pc w WAddH1) Epc.
-    + wl s i w (at_pc w WWbTry) Epc.
+    destruct (sq_full s (nth i (wlh s) 0)).
+    + apply (Inv_waker_local s _ i w (after_wbf w)); try reflexivity; try assumption.
+      apply (committed_after_wbf w); rewrite Epc; reflexivity.
+    + wl s i w (at_pc w (WWbTry (wbf_available s (nth i (wlh s) 0)))) Epc.
   - (* WWbTry *)
-    destruct (wok w) eqn:Ewok.
-    + apply (Inv_waker_local s _ i w (call_done w)); try reflexivity; try assumption.
-      unfold committed at 1. rewrite Epc, Ewok. discriminate.
-    + wl s i w (at_pc w WAddH1) Epc.
+    destruct (parked s =? 0).
+    + apply (Inv_waker_local s _ i w (after_wbf w)); try reflexivity; try assumption.
+      apply (committed_after_wbf w); rewrite Epc; reflexivity.
+    + apply (Inv_waker_local s _ i w (at_pc w (WWbLock (wbf_rest avail (parked s)) (wbf_left avail (parked s)))));
+        try reflexivity; try assumption. cm Epc.
+  - (* WWbLock *)
+    apply (Inv_waker_local s _ i w (after_wbf w)); try reflexivity; try assumption.
+    apply (committed_after_wbf w); rewrite Epc; reflexivity.
 Qed.
 
 (** What the invariant says about a blocked poller that is owed a wake-up. *)
@@ -506,7 +529,7 @@ Proof.
   - apply Inv_pintr; exact HI.
 Qed.
 
-Lemma Inv_init m c prefill npolls wcalls : Inv (init m c prefill npolls wcalls).
+Lemma Inv_init m c prefill nparked npolls wcalls : Inv (init m c prefill nparked npolls wcalls).
 Proof.
   unfold Inv, init; proj. splits; try reflexivity; try lia; intros; discriminate.
 Qed.
@@ -523,9 +546,9 @@ Proof.
   destruct (run step s1 es) as [s2 o2]. exact IH.
 Qed.
 
-Lemma run_Inv m c prefill npolls wcalls es :
-  valid (init m c prefill npolls wcalls) es ->
-  Inv (fst (run step (init m c prefill npolls wcalls) es)).
+Lemma run_Inv m c prefill nparked npolls wcalls es :
+  valid (init m c prefill nparked npolls wcalls) es ->
+  Inv (fst (run step (init m c prefill nparked npolls wcalls) es)).
 Proof. intros Hv. apply (run_valid_invariant Inv Inv_step); [exact Hv|apply Inv_init]. Qed.
 
 (** ** The second invariant *)
@@ -574,6 +597,7 @@ Proof.
   intros HI. unfold pstep. destruct (pp s) eqn:Epp;
     try exact HI;
     try (destruct (sq_full s (lh s)); exact HI);
+    try (destruct (parked s =? 0); exact HI);
     try (inv2_destruct HI; unfold Inv2; proj; splits; try assumption; lia).
   - destruct (polls s); exact HI.
   - destruct (0 <? cq s); exact HI.
@@ -601,7 +625,8 @@ Qed.
 
 (** The waker's side condition of [Inv2_waker_local]. *)
 Ltac sm Epc :=
-  unfold submitter; rewrite ?Epc;
+  unfold submitter; rewrite ?Epc; unfold after_wbf;
+  repeat match goal with |- context [if wok ?w then _ else _] => destruct (wok w) end;
   cbn [at_pc at_pc_ok call_done wp wok];
   intros; try assumption; try reflexivity; try discriminate.
 Ltac wl2 s i w w' Epc :=
@@ -667,14 +692,15 @@ Proof.
     + sm Epc.
   - (* WWbH *) wl2 s i w (at_pc w WWbT) Epc.
   - (* WWbT *)
-    destruct (sq_full s (nth i (wlh s) 0)); [destruct (wok w)|].
-    + wl2 s i w (call_done w) Epc.
-    + wl2 s i w (at_pc w WAddH1) Epc.
-    + wl2 s i w (at_pc w WWbTry) Epc.
+    destruct (sq_full s (nth i (wlh s) 0)).
+    + wl2 s i w (after_wbf w) Epc.
+    + wl2 s i w (at_pc w (WWbTry (wbf_available s (nth i (wlh s) 0)))) Epc.
   - (* WWbTry *)
-    destruct (wok w).
-    + wl2 s i w (call_done w) Epc.
-    + wl2 s i w (at_pc w WAddH1) Epc.
+    destruct (parked s =? 0).
+    + wl2 s i w (after_wbf w) Epc.
+    + wl2 s i w (at_pc w (WWbLock (wbf_rest avail (parked s)) (wbf_left avail (parked s)))) Epc.
+  - (* WWbLock *)
+    wl2 s i w (after_wbf w) Epc.
 Qed.
 
 Lemma Inv2_set_p s p : Inv2 s -> Inv2 (set_p s p).
@@ -699,21 +725,21 @@ Proof.
   - apply Inv2_pintr; exact HI.
 Qed.
 
-Lemma Inv2_init m c prefill npolls wcalls : Inv2 (init m c prefill npolls wcalls).
+Lemma Inv2_init m c prefill nparked npolls wcalls : Inv2 (init m c prefill nparked npolls wcalls).
 Proof.
   unfold Inv2, init; proj. splits; try lia.
   apply Forall_forall. intros v Hin. apply in_map_iff in Hin. destruct Hin as (x & <- & _). lia.
 Qed.
 
-Lemma run_Inv2 m c prefill npolls wcalls es :
-  Inv2 (fst (run step (init m c prefill npolls wcalls) es)).
+Lemma run_Inv2 m c prefill nparked npolls wcalls es :
+  Inv2 (fst (run step (init m c prefill nparked npolls wcalls) es)).
 Proof. apply (run_invariant step Inv2 Inv2_step). apply Inv2_init. Qed.
 
 (** ** The statements *)
 Lemma no_lost_ring_wakeup_holds : no_lost_ring_wakeup.
 Proof.
-  intros m c prefill npolls wcalls es Hv.
-  pose proof (run_Inv m c prefill npolls wcalls es Hv) as HI.
+  intros m c prefill nparked npolls wcalls es Hv.
+  pose proof (run_Inv m c prefill nparked npolls wcalls es Hv) as HI.
   inv_destruct HI. exact Hlost.
 Qed.
 
@@ -726,8 +752,8 @@ Qed.
 
 Lemma wake_is_on_its_way_holds : wake_is_on_its_way.
 Proof.
-  intros m c prefill npolls wcalls es Hv. cbv zeta. intros Epp Ho.
-  pose proof (run_Inv m c prefill npolls wcalls es Hv) as HI.
+  intros m c prefill nparked npolls wcalls es Hv. cbv zeta. intros Epp Ho.
+  pose proof (run_Inv m c prefill nparked npolls wcalls es Hv) as HI.
   destruct (Inv_blocked_owed _ HI Epp Ho) as [H|[H|H]]; [left; exact H|right; left; lia|].
   right; right. apply committed_not_idle. exact H.
 Qed.
@@ -739,8 +765,8 @@ Qed.
 
 Lemma pending_message_has_a_submitter_holds : pending_message_has_a_submitter.
 Proof.
-  intros m c prefill npolls wcalls es. cbv zeta. intros Hlt.
-  pose proof (run_Inv2 m c prefill npolls wcalls es) as HI. inv2_destruct HI.
+  intros m c prefill nparked npolls wcalls es. cbv zeta. intros Hlt.
+  pose proof (run_Inv2 m c prefill nparked npolls wcalls es) as HI. inv2_destruct HI.
   destruct (Hsub Hlt) as [H|(i & w & Hi & Hw)]; [left; exact H|right].
   exists i, w. split; [exact Hi|]. unfold submitter in Hw.
   destruct (wp w); try discriminate Hw; auto.
@@ -749,37 +775,29 @@ Qed.
 Lemma owed_poller_is_resumable_or_a_waker_is_running_holds :
   owed_poller_is_resumable_or_a_waker_is_running.
 Proof.
-  intros m c prefill npolls wcalls es Hv. cbv zeta. intros Epp Ho.
-  pose proof (run_Inv m c prefill npolls wcalls es Hv) as HI.
+  intros m c prefill nparked npolls wcalls es Hv. cbv zeta. intros Epp Ho.
+  pose proof (run_Inv m c prefill nparked npolls wcalls es Hv) as HI.
   destruct (Inv_blocked_owed _ HI Epp Ho) as [H|[H|H]];
     [left; exact H| |right; right; apply committed_not_idle; exact H].
-  destruct (pending_message_has_a_submitter_holds m c prefill npolls wcalls es H)
+  destruct (pending_message_has_a_submitter_holds m c prefill nparked npolls wcalls es H)
     as [Hm|(i & w & Hi & Hw)].
   - right; left. split; assumption.
   - right; right. exists i, w. split; [exact Hi|]. destruct Hw as [E|E]; rewrite E; discriminate.
 Qed.
 
 (** ** Executable validity check (for the examples) *)
-Definition ppc_eqb (a b : ppc) : bool :=
-  match a, b with
-  | PIdle, PIdle | PLoadCqT, PLoadCqT | PSetPolling, PSetPolling | PEnterH, PEnterH
-  | PEnterT, PEnterT | PEnterFlags, PEnterFlags | PInKernel, PInKernel | PWbH, PWbH
-  | PWbT, PWbT | PWbTry, PWbTry | PClearPolling, PClearPolling
-  | PClearPollingIntr, PClearPollingIntr | PLoadCqT2, PLoadCqT2
-  | PStoreHead, PStoreHead | PEndWbH, PEndWbH | PEndWbT, PEndWbT | PEndWbTry, PEndWbTry => true
-  | _, _ => false
-  end.
+Definition in_kernelb (p : ppc) : bool := match p with PInKernel => true | _ => false end.
 
 Definition waker_finished (w : waker) : bool :=
   match wp w, calls w with WIdle, O => true | _, _ => false end.
 
 Definition ev_okb (s : st) (e : ev) : bool :=
   match e with
-  | P => negb (ppc_eqb (pp s) PInKernel)
+  | P => negb (in_kernelb (pp s))
          || (0 <? cq s)
          || (match md s with KernelThread => true | _ => false end && (sqh s <? sqt s))
   | W i => Nat.ltb i (length (wakers s))
-  | Stuck => ppc_eqb (pp s) PInKernel && (cq s =? 0) && (sqh s =? sqt s)
+  | Stuck => in_kernelb (pp s) && (cq s =? 0) && (sqh s =? sqt s)
              && forallb waker_finished (wakers s)
   | PI => true
   end.
@@ -790,8 +808,8 @@ Fixpoint validb (s : st) (es : list ev) : bool :=
   | e :: r => ev_okb s e && validb (fst (step s e)) r
   end.
 
-Lemma ppc_eqb_eq a b : ppc_eqb a b = true <-> a = b.
-Proof. destruct a, b; cbn; split; intros H; try reflexivity; discriminate H. Qed.
+Lemma in_kernelb_eq p : in_kernelb p = true <-> p = PInKernel.
+Proof. destruct p; cbn; split; intros H; try reflexivity; discriminate H. Qed.
 
 Lemma all_wakers_finished_b s :
   forallb waker_finished (wakers s) = true -> all_wakers_finished s.
@@ -804,7 +822,7 @@ Qed.
 Lemma ev_okb_sound s e : ev_okb s e = true -> ev_ok s e.
 Proof.
   destruct e as [|i| |]; cbn [ev_okb ev_ok]; intros H; [| | |exact I].
-  - intros Epp. rewrite Epp in H. cbn [ppc_eqb negb orb] in H.
+  - intros Epp. rewrite Epp in H. cbn [in_kernelb negb orb] in H.
     apply orb_true_iff in H. destruct H as [H|H]; [left; apply N.ltb_lt; exact H|].
     apply andb_true_iff in H. destruct H as [H1 H2]. right.
     split; [destruct (md s); try discriminate H1; reflexivity|apply N.ltb_lt; exact H2].
@@ -812,7 +830,7 @@ Proof.
   - apply andb_true_iff in H. destruct H as [H H4].
     apply andb_true_iff in H. destruct H as [H H3].
     apply andb_true_iff in H. destruct H as [H1 H2].
-    split; [apply ppc_eqb_eq; exact H1|]. split; [apply N.eqb_eq; exact H2|].
+    split; [apply in_kernelb_eq; exact H1|]. split; [apply N.eqb_eq; exact H2|].
     split; [apply N.eqb_eq; exact H3|apply all_wakers_finished_b; exact H4].
 Qed.
 
@@ -854,13 +872,13 @@ Definition wake_schedule_single : list ev :=
 
 (** The examples below use a queue of 8 entries, empty at the start. *)
 Definition blocked_then_woken (m : mode) (es : list ev) (nblock : nat) : Prop :=
-  valid (init m 8 0 1 [1%nat]) es
-  /\ (let s := fst (run step (init m 8 0 1 [1%nat]) (firstn nblock es)) in
+  valid (init m 8 0 0 1 [1%nat]) es
+  /\ (let s := fst (run step (init m 8 0 0 1 [1%nat]) (firstn nblock es)) in
       pp s = PInKernel /\ pstate s = IS_POLLING /\ cq s = 0 /\ owed s = false)
-  /\ (let s := fst (run step (init m 8 0 1 [1%nat]) (firstn (S nblock) es)) in
+  /\ (let s := fst (run step (init m 8 0 0 1 [1%nat]) (firstn (S nblock) es)) in
       pp s = PInKernel /\ pstate s = N.lor IS_POLLING IS_AWOKEN /\ owed s = true
       /\ (0 < cq s \/ exists w, nth_error (wakers s) 0 = Some w /\ wp w = WAddH1))
-  /\ (let s := fst (run step (init m 8 0 1 [1%nat]) es) in
+  /\ (let s := fst (run step (init m 8 0 0 1 [1%nat]) es) in
       pp s = PIdle /\ polls s = O /\ pstate s = NOT_POLLING /\ owed s = false
       /\ lost s = false /\ all_wakers_finished s).
 
@@ -907,7 +925,7 @@ Definition wake_schedule_queue_full : list ev :=
   ++ [P; P; P; P; P; P; P; P; P].                       (* the poll returns *)
 
 Example wake_example_queue_full :
-  let s0 := init Default 1 1 1 [1%nat] in
+  let s0 := init Default 1 1 0 1 [1%nat] in
   let at_ n := fst (run step s0 (firstn n wake_schedule_queue_full)) in
   valid s0 wake_schedule_queue_full
   /\ (let s := at_ 4%nat in
@@ -960,17 +978,17 @@ Definition strict_schedule : list ev :=
 
 Lemma strict_target_reading_refuted :
   exists es,
-    valid (init Default 8 0 2 [1%nat; 1%nat]) es
+    valid (init Default 8 0 0 2 [1%nat; 1%nat]) es
     /\ (* waker 1's fetch_or: poll 1 is in progress but no longer inside the kernel; the bit is
           already set; the call returns at once *)
-       (let s := fst (run step (init Default 8 0 2 [1%nat; 1%nat]) (firstn 16 es)) in
+       (let s := fst (run step (init Default 8 0 0 2 [1%nat; 1%nat]) (firstn 16 es)) in
         nth_error es 16 = Some (W 1)
         /\ pp s = PWbH /\ polls s = 2%nat /\ pstate s = N.lor IS_POLLING IS_AWOKEN
         /\ nth_error (wakers s) 1 = Some {| wp := WIdle; calls := 1; wok := false |}
         /\ nth_error (wakers (wstep s 1)) 1 = Some {| wp := WIdle; calls := 0; wok := false |})
     /\ (* the end: the second poll is blocked with nothing to wake it, and the scheduler may
           report it stuck; nothing is owed by the API-level reading *)
-       (let s := fst (run step (init Default 8 0 2 [1%nat; 1%nat]) es) in
+       (let s := fst (run step (init Default 8 0 0 2 [1%nat; 1%nat]) es) in
         pp s = PInKernel /\ polls s = 1%nat /\ cq s = 0 /\ sqh s = sqt s
         /\ all_wakers_finished s /\ ev_ok s Stuck
         /\ owed s = false /\ lost s = false
@@ -980,7 +998,7 @@ Proof.
   split; [apply validb_sound; vm_compute; reflexivity|].
   split; [vm_compute; repeat split; reflexivity|].
   assert (Hfin : all_wakers_finished
-                   (fst (run step (init Default 8 0 2 [1%nat; 1%nat]) strict_schedule)))
+                   (fst (run step (init Default 8 0 0 2 [1%nat; 1%nat]) strict_schedule)))
     by (apply all_wakers_finished_b; vm_compute; reflexivity).
   split; [vm_compute; reflexivity|]. split; [vm_compute; reflexivity|].
   split; [vm_compute; reflexivity|]. split; [vm_compute; reflexivity|].
@@ -996,10 +1014,10 @@ Qed.
     progress. [None]: the points before and inside [enter] (in particular [PInKernel]). *)
 Definition ret_dist (p : ppc) : option nat :=
   match p with
-  | PWbH => Some 9%nat | PWbT => Some 8%nat | PWbTry => Some 7%nat
-  | PClearPolling | PClearPollingIntr => Some 6%nat
-  | PLoadCqT2 => Some 5%nat | PStoreHead => Some 4%nat
-  | PEndWbH => Some 3%nat | PEndWbT => Some 2%nat | PEndWbTry => Some 1%nat
+  | PWbH => Some 11%nat | PWbT => Some 10%nat | PWbTry _ => Some 9%nat | PWbLock _ _ => Some 8%nat
+  | PClearPolling | PClearPollingIntr => Some 7%nat
+  | PLoadCqT2 => Some 6%nat | PStoreHead => Some 5%nat
+  | PEndWbH => Some 4%nat | PEndWbT => Some 3%nat | PEndWbTry _ => Some 2%nat | PEndWbLock _ _ => Some 1%nat
   | _ => None
   end.
 
@@ -1010,10 +1028,12 @@ Definition poller_events (es : list ev) : nat := length (filter is_poller_ev es)
     (or blocked inside) its [io_uring_enter] and whatever follows the interruption ([es]: any
     events at all — waker steps, further signals; no validity assumed): the poll in progress
     has returned ([polls] went down), or the poller is on the straight way to the return — past
-    [enter], not blocked, at most [9 - (poller steps made)] poller steps away (6 when the call
-    failed with EINTR; 9 when a blocked call that had submitted something, or that finds a
-    completion by now, reports success and runs [wake_blocked_futures] first). After 9 poller
-    steps the poll has returned, having cleared what was owed. *)
+    [enter], not blocked, at most [11 - (poller steps made)] poller steps away (7 when the call
+    failed with EINTR; 11 when a blocked call that had submitted something, or that finds a
+    completion by now, reports success and runs [wake_blocked_futures] first; each
+    [wake_blocked_futures] is at most 4 steps: two loads, the try_lock, and — when futures are
+    parked and a slot is free — the second lock). After 11 poller steps the poll has returned,
+    having cleared what was owed. *)
 Definition interrupted_enter_makes_poll_return : Prop :=
   forall s n es,
     (pp s = PEnterT \/ pp s = PEnterFlags \/ pp s = PInKernel) -> polls s = S n ->
@@ -1022,7 +1042,7 @@ Definition interrupted_enter_makes_poll_return : Prop :=
     /\ (let s1 := fst (run step s0 es) in
         (polls s1 <= n)%nat
         \/ (polls s1 = S n /\ pp s1 <> PInKernel
-            /\ exists d, ret_dist (pp s1) = Some d /\ (d + poller_events es <= 9)%nat)).
+            /\ exists d, ret_dist (pp s1) = Some d /\ (d + poller_events es <= 11)%nat)).
 
 (** ... and when it returns nothing is owed any more (the ghost is cleared by the return only). *)
 Definition poll_return_clears_owed : Prop :=
@@ -1059,14 +1079,13 @@ Proof. unfold syscall_submit, consume_all. destruct (md s); reflexivity. Qed.
 Lemma pstep_polls_le s : (polls (pstep s) <= polls s)%nat.
 Proof.
   unfold pstep. destruct (pp s);
-    try (cbn [polls set_p set_lh clear_polling poll_return]; lia).
-  - destruct (polls s) eqn:E; cbn [polls set_p]; lia.
-  - destruct (0 <? cq s); cbn [polls set_p]; lia.
-  - rewrite enter_wait_polls, syscall_submit_polls. lia.
-  - rewrite enter_wait_polls, syscall_submit_polls. lia.
-  - destruct (md s); destruct (0 <? cq _); cbn [polls after_enter_ok set_p consume_all consume]; lia.
-  - destruct (sq_full s (lh s)); cbn [polls set_p]; lia.
-  - destruct (sq_full s (lh s)); cbn [polls set_p poll_return]; lia.
+    try (rewrite enter_wait_polls, syscall_submit_polls; lia);
+    repeat match goal with
+           | |- context [match polls ?s with _ => _ end] => destruct (polls s) eqn:?
+           | |- context [if ?x then _ else _] => destruct x
+           | |- context [match md ?s with _ => _ end] => destruct (md s)
+           end;
+    cbn [polls set_p set_lh set_parked wbf_putback clear_polling poll_return after_enter_ok consume_all consume]; lia.
 Qed.
 
 Lemma pintr_polls_le s : (polls (pintr s) <= polls s)%nat.
@@ -1100,20 +1119,13 @@ Lemma pstep_ret_dist s n d :
   \/ (polls (pstep s) = S n /\ exists d', ret_dist (pp (pstep s)) = Some d' /\ (S d' <= d)%nat).
 Proof.
   intros Hn Hd. unfold pstep. destruct (pp s); try discriminate Hd;
-    injection Hd as <-.
-  - right. cbn [polls pp set_p set_lh ret_dist]. split; [exact Hn|]. eexists; split; [reflexivity|lia].
-  - right. destruct (sq_full s (lh s)); cbn [polls pp set_p ret_dist];
-      (split; [exact Hn|]); eexists; (split; [reflexivity|lia]).
-  - right. cbn [polls pp set_p ret_dist]. split; [exact Hn|]. eexists; split; [reflexivity|lia].
-  - right. cbn [polls pp clear_polling ret_dist]. split; [exact Hn|]. eexists; split; [reflexivity|lia].
-  - right. cbn [polls pp clear_polling ret_dist]. split; [exact Hn|]. eexists; split; [reflexivity|lia].
-  - right. cbn [polls pp ret_dist]. split; [exact Hn|]. eexists; split; [reflexivity|lia].
-  - right. cbn [polls pp ret_dist]. split; [exact Hn|]. eexists; split; [reflexivity|lia].
-  - right. cbn [polls pp set_p set_lh ret_dist]. split; [exact Hn|]. eexists; split; [reflexivity|lia].
-  - destruct (sq_full s (lh s)).
-    + left. cbn [polls poll_return]. rewrite Hn. reflexivity.
-    + right. cbn [polls pp set_p ret_dist]. split; [exact Hn|]. eexists; split; [reflexivity|lia].
-  - left. cbn [polls poll_return]. rewrite Hn. reflexivity.
+    injection Hd as <-;
+    repeat match goal with
+           | |- context [if ?x then _ else _] => destruct x
+           end;
+    cbn [polls pp set_p set_lh set_parked wbf_putback clear_polling poll_return ret_dist];
+    first [ left; rewrite Hn; reflexivity
+          | right; split; [exact Hn|]; eexists; split; [reflexivity|lia] ].
 Qed.
 
 Lemma pintr_is_pstep_after_enter s d : ret_dist (pp s) = Some d -> pintr s = pstep s.
@@ -1157,17 +1169,17 @@ Qed.
 Lemma interrupted_enter_makes_poll_return_holds : interrupted_enter_makes_poll_return.
 Proof.
   intros s n es Hpc Hn. cbv zeta. cbn [step fst].
-  assert (Hd : exists d, ret_dist (pp (pintr s)) = Some d /\ (d <= 9)%nat /\ polls (pintr s) = S n).
+  assert (Hd : exists d, ret_dist (pp (pintr s)) = Some d /\ (d <= 11)%nat /\ polls (pintr s) = S n).
   { unfold pintr. destruct Hpc as [E|[E|E]]; rewrite E.
-    - exists 6%nat. cbn [pp polls set_p ret_dist]. rewrite syscall_submit_polls. repeat split; [lia|exact Hn].
-    - exists 6%nat. cbn [pp polls set_p ret_dist]. rewrite syscall_submit_polls. repeat split; [lia|exact Hn].
+    - exists 7%nat. cbn [pp polls set_p ret_dist]. rewrite syscall_submit_polls. repeat split; [lia|exact Hn].
+    - exists 7%nat. cbn [pp polls set_p ret_dist]. rewrite syscall_submit_polls. repeat split; [lia|exact Hn].
     - assert (Hn1 : polls (match md s with KernelThread => consume_all s | _ => s end) = S n)
         by (destruct (md s); exact Hn).
       set (s1 := match md s with KernelThread => consume_all s | _ => s end) in *. clearbody s1.
       destruct (0 <? cq s1); [|destruct (psub s =? 0)]; cbn [pp polls after_enter_ok set_p ret_dist].
-      + exists 9%nat. repeat split; [lia|exact Hn1].
-      + exists 6%nat. repeat split; [lia|exact Hn1].
-      + exists 9%nat. repeat split; [lia|exact Hn1]. }
+      + exists 11%nat. repeat split; [lia|exact Hn1].
+      + exists 7%nat. repeat split; [lia|exact Hn1].
+      + exists 11%nat. repeat split; [lia|exact Hn1]. }
   split.
   - intros [E|E]; unfold pintr; rewrite E; cbn [pp polls set_p]; rewrite syscall_submit_polls;
       split; [reflexivity|exact Hn|reflexivity|exact Hn].
@@ -1180,17 +1192,14 @@ Qed.
 Lemma pstep_return_clears_owed s : polls (pstep s) <> polls s -> owed (pstep s) = false.
 Proof.
   unfold pstep. destruct (pp s);
-    try (cbn [polls set_p set_lh clear_polling]; intros H; exfalso; apply H; reflexivity);
-    try reflexivity.
-  - destruct (polls s) eqn:E; cbn [polls set_p]; intros H; exfalso; apply H; congruence.
-  - destruct (0 <? cq s); cbn [polls set_p]; intros H; exfalso; apply H; reflexivity.
-  - rewrite enter_wait_polls, syscall_submit_polls. intros H; exfalso; apply H; reflexivity.
-  - rewrite enter_wait_polls, syscall_submit_polls. intros H; exfalso; apply H; reflexivity.
-  - destruct (md s); destruct (0 <? cq _); cbn [polls after_enter_ok set_p consume_all consume];
-      intros H; exfalso; apply H; reflexivity.
-  - destruct (sq_full s (lh s)); cbn [polls set_p]; intros H; exfalso; apply H; reflexivity.
-  - destruct (sq_full s (lh s)); [reflexivity|].
-    cbn [polls set_p]; intros H; exfalso; apply H; reflexivity.
+    try (rewrite enter_wait_polls, syscall_submit_polls; intros H; exfalso; apply H; reflexivity);
+    repeat match goal with
+           | |- context [match polls ?s with _ => _ end] => destruct (polls s) eqn:?
+           | |- context [if ?x then _ else _] => destruct x
+           | |- context [match md ?s with _ => _ end] => destruct (md s)
+           end;
+    cbn [polls owed set_p set_lh set_parked wbf_putback clear_polling poll_return after_enter_ok consume_all consume];
+    try reflexivity; intros H; exfalso; apply H; congruence.
 Qed.
 
 Lemma poll_return_clears_owed_holds : poll_return_clears_owed.
@@ -1220,13 +1229,13 @@ Definition eintr_schedule : list ev :=
 
 (** The code as it is: the poll returns, nothing is owed. In each mode. *)
 Definition interrupted_then_returns (m : mode) : Prop :=
-  valid (init m 8 0 1 [1%nat]) eintr_schedule
-  /\ (let s := fst (run step (init m 8 0 1 [1%nat]) (firstn 5 eintr_schedule)) in
+  valid (init m 8 0 0 1 [1%nat]) eintr_schedule
+  /\ (let s := fst (run step (init m 8 0 0 1 [1%nat]) (firstn 5 eintr_schedule)) in
       (pp s = PEnterT \/ pp s = PEnterFlags) /\ aw s = true /\ owed s = true
       /\ pstate s = IS_POLLING /\ cq s = 0 /\ all_wakers_finished s)
-  /\ (let s := fst (run step (init m 8 0 1 [1%nat]) (firstn 6 eintr_schedule)) in
+  /\ (let s := fst (run step (init m 8 0 0 1 [1%nat]) (firstn 6 eintr_schedule)) in
       pp s = PClearPollingIntr /\ owed s = true)
-  /\ (let s := fst (run step (init m 8 0 1 [1%nat]) eintr_schedule) in
+  /\ (let s := fst (run step (init m 8 0 0 1 [1%nat]) eintr_schedule) in
       pp s = PIdle /\ polls s = O /\ pstate s = NOT_POLLING /\ owed s = false /\ lost s = false).
 
 (** Kernel-thread mode has one load less before the call (flags instead of head + tail). *)
@@ -1252,10 +1261,10 @@ Proof.
 Qed.
 
 Example eintr_example_kthread :
-  valid (init KernelThread 8 0 1 [1%nat]) eintr_schedule_kthread
-  /\ (let s := fst (run step (init KernelThread 8 0 1 [1%nat]) (firstn 4 eintr_schedule_kthread)) in
+  valid (init KernelThread 8 0 0 1 [1%nat]) eintr_schedule_kthread
+  /\ (let s := fst (run step (init KernelThread 8 0 0 1 [1%nat]) (firstn 4 eintr_schedule_kthread)) in
       pp s = PEnterFlags /\ aw s = true /\ owed s = true /\ pstate s = IS_POLLING /\ cq s = 0)
-  /\ (let s := fst (run step (init KernelThread 8 0 1 [1%nat]) eintr_schedule_kthread) in
+  /\ (let s := fst (run step (init KernelThread 8 0 0 1 [1%nat]) eintr_schedule_kthread) in
       pp s = PIdle /\ polls s = O /\ pstate s = NOT_POLLING /\ owed s = false /\ lost s = false).
 Proof.
   cbv zeta. split; [apply validb_sound; vm_compute; reflexivity|].
@@ -1265,7 +1274,7 @@ Qed.
 (** A signal while the poll is blocked, nothing owed: the poll returns as well (and the next one
     blocks again: nobody wakes it, nothing is owed, the scheduler may report it stuck). *)
 Example eintr_example_blocked :
-  let s0 := init Default 8 0 2 [] in
+  let s0 := init Default 8 0 0 2 [] in
   let es := [P; P; P; P; P] ++ [PI] ++ [P; P; P; P; P; P] ++ [P; P; P; P; P] ++ [Stuck] in
   valid s0 es
   /\ (let s := fst (run step s0 (firstn 5 es)) in pp s = PInKernel /\ psub s = 0 /\ polls s = 2%nat)
@@ -1310,11 +1319,11 @@ Definition eintr_retry_schedule : list ev :=
     ([eintr_example_default]). *)
 Definition eintr_retry_loses_wakeup : Prop :=
   exists es,
-    valid_loop (init Default 8 0 1 [1%nat]) es
+    valid_loop (init Default 8 0 0 1 [1%nat]) es
     /\ nth_error es 0 = Some (W 0) /\ nth_error es 5 = Some PI
-    /\ (let s := fst (run step_loop (init Default 8 0 1 [1%nat]) (firstn 5 es)) in
+    /\ (let s := fst (run step_loop (init Default 8 0 0 1 [1%nat]) (firstn 5 es)) in
         pp s = PEnterT /\ aw s = true /\ owed s = true)
-    /\ (let s := fst (run step_loop (init Default 8 0 1 [1%nat]) es) in
+    /\ (let s := fst (run step_loop (init Default 8 0 0 1 [1%nat]) es) in
         pp s = PInKernel /\ polls s = 1%nat /\ aw s = false /\ pstate s = IS_POLLING
         /\ cq s = 0 /\ sqh s = sqt s /\ all_wakers_finished s
         /\ owed s = true /\ ev_ok s Stuck
@@ -1327,7 +1336,7 @@ Proof.
   split; [reflexivity|]. split; [reflexivity|].
   split; [vm_compute; repeat split; reflexivity|].
   assert (Hfin : all_wakers_finished
-                   (fst (run step_loop (init Default 8 0 1 [1%nat]) eintr_retry_schedule)))
+                   (fst (run step_loop (init Default 8 0 0 1 [1%nat]) eintr_retry_schedule)))
     by (apply all_wakers_finished_b; vm_compute; reflexivity).
   split; [vm_compute; reflexivity|]. split; [vm_compute; reflexivity|].
   split; [vm_compute; reflexivity|]. split; [vm_compute; reflexivity|].
@@ -1336,4 +1345,133 @@ Proof.
   split; [|vm_compute; reflexivity].
   split; [vm_compute; reflexivity|]. split; [vm_compute; reflexivity|].
   split; [vm_compute; reflexivity|exact Hfin].
+Qed.
+
+(** ** Futures parked on the blocked-futures list *)
+
+(** Non-vacuity: a queue of 2 entries, full of unrelated operations, 3 futures parked. The poll
+    submits the two operations and blocks; the waker's [fetch_or] sees "polling, not awoken", it
+    publishes the message and enters; its [wake_blocked_futures] finds 2 slots: it takes the 3
+    wakers, wakes 2, locks again and puts 1 back. The blocked poll returns; its own
+    [wake_blocked_futures] takes the last waker, wakes it, locks again with nothing to put back;
+    at the end of the poll the list is empty. *)
+Definition parked_schedule : list ev :=
+  [P; P; P; P; P]                                       (* the poll submits what is queued and blocks *)
+  ++ [W 0]                                              (* fetch_or: 01 -> 11, committed *)
+  ++ [W 0; W 0; W 0; W 0; W 0; W 0; W 0]                (* add *)
+  ++ [W 0; W 0]                                         (* enter: the kernel posts the completions *)
+  ++ [W 0; W 0; W 0; W 0]                               (* loads (2 available); try_lock: takes 3, wakes 2; lock: 1 back *)
+  ++ [P]                                                (* the blocked enter returns *)
+  ++ [P; P; P; P]                                       (* loads; try_lock: takes 1, wakes it; lock: nothing to put back *)
+  ++ [P; P; P]                                          (* swap(NOT_POLLING), reload, store head *)
+  ++ [P; P; P].                                         (* loads; try_lock: the list is empty; the poll returns *)
+
+Example parked_example :
+  let s0 := init Default 2 2 3 1 [1%nat] in
+  let at_ n := fst (run step s0 (firstn n parked_schedule)) in
+  valid s0 parked_schedule
+  /\ (let s := at_ 5%nat in
+      pp s = PInKernel /\ parked s = 3 /\ psub s = 2 /\ sqh s = sqt s /\ cq s = 0)
+  /\ (let s := at_ 17%nat in
+      parked s = 3 /\ cq s = 2
+      /\ nth_error (wakers s) 0 = Some {| wp := WWbTry 2; calls := 1; wok := true |})
+  /\ (let s := at_ 18%nat in
+      parked s = 0 /\ nth_error (wakers s) 0 = Some {| wp := WWbLock 1 0; calls := 1; wok := true |})
+  /\ (let s := at_ 19%nat in
+      parked s = 1 /\ nth_error (wakers s) 0 = Some {| wp := WIdle; calls := 0; wok := false |})
+  /\ (let s := at_ 23%nat in pp s = PWbLock 0 1 /\ parked s = 0)
+  /\ (let s := fst (run step s0 parked_schedule) in
+      pp s = PIdle /\ polls s = O /\ pstate s = NOT_POLLING /\ parked s = 0 /\ owed s = false
+      /\ lost s = false /\ all_wakers_finished s).
+Proof.
+  cbv zeta. split; [apply validb_sound; vm_compute; reflexivity|].
+  repeat match goal with |- _ /\ _ => split end;
+    try (vm_compute; reflexivity).
+  apply all_wakers_finished_b. vm_compute. reflexivity.
+Qed.
+
+(** Validity of a schedule for the variant with the HAS_WAITING bit (same [ev_ok]). *)
+Inductive valid_hw : st -> list ev -> Prop :=
+  | valid_hw_nil s : valid_hw s []
+  | valid_hw_cons s e es : ev_ok s e -> valid_hw (fst (step_hw s e)) es -> valid_hw s (e :: es).
+
+Fixpoint valid_hwb (s : st) (es : list ev) : bool :=
+  match es with
+  | [] => true
+  | e :: r => ev_okb s e && valid_hwb (fst (step_hw s e)) r
+  end.
+
+Lemma valid_hwb_sound es : forall s, valid_hwb s es = true -> valid_hw s es.
+Proof.
+  induction es as [|e es IH]; intros s H; [constructor|].
+  cbn [valid_hwb] in H. apply andb_true_iff in H. destruct H as [H1 H2].
+  constructor; [apply ev_okb_sound; exact H1|apply IH; exact H2].
+Qed.
+
+(** One future parked (queue of 2 entries, full); the poll submits the two operations and
+    blocks; then one [wake()]. *)
+Definition has_waiting_schedule : list ev :=
+  [P; P; P; P; P]                                       (* set_polling(true): 100 -> 101; enter submits 2, blocks *)
+  ++ [W 0].                                             (* fetch_or: 101 -> 111; 101 <> IS_POLLING: no message *)
+
+(** Refuted for the state word with a third bit HAS_WAITING kept by [set_polling] while
+    [PollingState::wake] still compares the whole word with [IS_POLLING] (seeded change C11-h;
+    NOT the code as it is): a valid interleaving with one parked future after which the poller is
+    blocked with both queues empty, every waker finished and the wake-up owed: the scheduler's
+    "stuck" is admissible and the wake-up is lost. On the same events the code as it is has the
+    waker committed to post its message (and then [no_lost_ring_wakeup] applies). *)
+Definition has_waiting_bit_loses_wakeup : Prop :=
+  exists es,
+    valid_hw (init_hw Default 2 2 1 1 [1%nat]) es
+    /\ nth_error es 5 = Some (W 0)
+    /\ (let s := fst (run step_hw (init_hw Default 2 2 1 1 [1%nat]) (firstn 5 es)) in
+        pp s = PInKernel /\ pstate s = N.lor IS_POLLING HAS_WAITING /\ parked s = 1
+        /\ cq s = 0 /\ sqh s = sqt s /\ owed s = false)
+    /\ (let s := fst (run step_hw (init_hw Default 2 2 1 1 [1%nat]) es) in
+        pp s = PInKernel /\ polls s = 1%nat /\ aw s = false
+        /\ pstate s = N.lor (N.lor IS_POLLING HAS_WAITING) IS_AWOKEN /\ parked s = 1
+        /\ cq s = 0 /\ sqh s = sqt s /\ all_wakers_finished s
+        /\ owed s = true /\ ev_ok s Stuck
+        /\ lost (fst (step_hw s Stuck)) = true)
+    /\ valid (init Default 2 2 1 1 [1%nat]) es
+    /\ (let s := fst (run step (init Default 2 2 1 1 [1%nat]) es) in
+        pp s = PInKernel /\ pstate s = N.lor IS_POLLING IS_AWOKEN /\ owed s = true
+        /\ nth_error (wakers s) 0 = Some {| wp := WAddH1; calls := 1; wok := false |}).
+
+Lemma has_waiting_bit_loses_wakeup_refuted : has_waiting_bit_loses_wakeup.
+Proof.
+  exists has_waiting_schedule. cbv zeta.
+  split; [apply valid_hwb_sound; vm_compute; reflexivity|].
+  split; [reflexivity|].
+  split; [vm_compute; repeat split; reflexivity|].
+  assert (Hfin : all_wakers_finished
+                   (fst (run step_hw (init_hw Default 2 2 1 1 [1%nat]) has_waiting_schedule)))
+    by (apply all_wakers_finished_b; vm_compute; reflexivity).
+  split.
+  { split; [vm_compute; reflexivity|]. split; [vm_compute; reflexivity|].
+    split; [vm_compute; reflexivity|]. split; [vm_compute; reflexivity|].
+    split; [vm_compute; reflexivity|]. split; [vm_compute; reflexivity|].
+    split; [vm_compute; reflexivity|]. split; [exact Hfin|].
+    split; [vm_compute; reflexivity|].
+    split; [|vm_compute; reflexivity].
+    split; [vm_compute; reflexivity|]. split; [vm_compute; reflexivity|].
+    split; [vm_compute; reflexivity|exact Hfin]. }
+  split; [apply validb_sound; vm_compute; reflexivity|].
+  vm_compute. repeat split; reflexivity.
+Qed.
+
+(** Without a parked future the variant behaves like the code as it is on the default wake
+    schedule, up to the scheduling points its early out skips (the three loads/try_lock of each
+    [wake_blocked_futures] are never reached): the poll returns. *)
+Example has_waiting_nobody_parked :
+  let es := [P; P; P; P; P] ++ [W 0] ++ [W 0; W 0; W 0; W 0; W 0; W 0; W 0] ++ [W 0; W 0]
+            ++ [P] ++ [P; P; P] in
+  valid_hw (init_hw Default 8 0 0 1 [1%nat]) es
+  /\ (let s := fst (run step_hw (init_hw Default 8 0 0 1 [1%nat]) es) in
+      pp s = PIdle /\ polls s = O /\ pstate s = NOT_POLLING /\ owed s = false /\ lost s = false
+      /\ all_wakers_finished s).
+Proof.
+  cbv zeta. split; [apply valid_hwb_sound; vm_compute; reflexivity|].
+  repeat match goal with |- _ /\ _ => split end; try (vm_compute; reflexivity).
+  apply all_wakers_finished_b. vm_compute. reflexivity.
 Qed.
